@@ -10,7 +10,7 @@ from . import c01
 ID = 'C09'
 LEVEL = 'exploration'
 RULE = ('case = (value tree over built-ins and pretty_call objects with comment()/trailing_comment() wrappers on any '
-        'nodes - leaf, container, dict key, dict value, set element, call argument, top level, sole tuple element - '
+        'nodes - leaf, container, container-subclass instance (also empty), dict key, dict value, set element, call argument, top level, sole tuple element - '
         'comment text over {a, bb, space, newline, #, quotes, brackets, comma, colon, backslash, non-ASCII} incl. blank '
         '[random cases also draw a depth limit, applied to both the commented and the stripped value: syntax tree only] '
         'and whitespace-only lines, width, indent). Exhaustive: all placements of <= 2 comments on all trees with <= 3 '
@@ -42,6 +42,10 @@ def _paths(r, prefix=()):
         for i, (k, v) in enumerate(r[1]):
             yield from _paths(k, prefix + (('k', i),))
             yield from _paths(v, prefix + (('v', i),))
+    elif t == 'sub':
+        # (the built-in container inside a subclass instance is not a node of its own: no wrapper may sit on it)
+        inner = list(_paths(r[3], prefix + ('s',)))
+        yield from inner[1:]
     elif t == 'call':
         for i, a in enumerate(r[2]):
             yield from _paths(a, prefix + (('a', i),))
@@ -56,6 +60,8 @@ def _wrap_at(r, path, kind, text):
     if t in ('cmt', 'tcmt'):
         return [t, r[1], _wrap_at(r[2], path, kind, text)]
     head, rest = path[0], path[1:]
+    if t == 'sub':
+        return ['sub', r[1], r[2], _wrap_at(r[3], rest, kind, text)]
     if t == 'call':
         which, i = head
         args = list(r[2])
@@ -101,6 +107,11 @@ def enumerate_cases(tier):
 
 
 def fixed_cases():
+    for base, inner in (('list', ['list', []]), ('tuple', ['tuple', []]), ('set', ['set', []]), ('dict', ['dict', []]),
+                        ('dict', ['dict', [[['int', 1], ['cmt', 'v', ['int', 2]]]]]), ('list', ['list', [['tcmt', 'x', ['int', 1]]]])):
+        for kind in ('tcmt', 'cmt'):
+            yield {'v': [kind, 'words of the comment', ['sub', base, 'plain', inner]], 'width': 30, 'ribbon': 30, 'indent': 4}
+            yield {'v': ['list', [[kind, 'words of the comment', ['sub', base, 'plain', inner]], ['int', 0]]], 'width': 30, 'ribbon': 30, 'indent': 4}
     yield {'v': ['tuple', [['cmt', 'x', ['int', 1]]]], 'width': 79, 'ribbon': 71, 'indent': 4}          # D5
     yield {'v': ['cmt', 'a\n\nb', ['int', 1]], 'width': 79, 'ribbon': 71, 'indent': 4}                  # D6
     yield {'v': ['list', [['cmt', 'a\n\nb', ['int', 1]]]], 'width': 79, 'ribbon': 71, 'indent': 4}
@@ -142,6 +153,12 @@ def strategy(tier):
             st.tuples(st.sampled_from(['box', 'alt']), st.lists(ch, max_size=3),
                       st.lists(st.tuples(st.sampled_from(['a', 'b', 'kw']), ch).map(list), max_size=2, unique_by=lambda p: p[0])).map(
                 lambda p: ['call', p[0], p[1], p[2]]),
+            # instances of subclasses of the containers (same printers; empty ones take the call path)
+            st.tuples(st.sampled_from(['plain', 'repr']), st.lists(ch, max_size=2)).map(lambda p: ['sub', 'list', p[0], ['list', p[1]]]),
+            st.tuples(st.sampled_from(['plain', 'str']), st.lists(ch, max_size=2)).map(lambda p: ['sub', 'tuple', p[0], ['tuple', p[1]]]),
+            st.tuples(st.sampled_from(['plain', 'repr']), st.lists(st.tuples(S['hashable'], ch).map(list), max_size=2)).map(
+                lambda p: ['sub', 'dict', p[0], ['dict', p[1]]]),
+            st.lists(S['hashable'], max_size=2).map(lambda xs: ['sub', 'set', 'plain', ['set', xs]]),
         )
     tree = st.recursive(leaf, ext, max_leaves=8)
     decos = st.lists(st.tuples(st.integers(0, 40), st.sampled_from(['cmt', 'cmt', 'tcmt']), text).map(list), min_size=1, max_size=5)
@@ -169,6 +186,11 @@ def reference_words(r, out, dropped):
         t = r[0]
     if cm:
         out.append(cm.split())
+    base = t
+    if t == 'sub':
+        base = {'frozenset': 'fset'}.get(r[1], r[1])
+        r = r[3]
+        t = r[0]
     if t in ('list', 'tuple', 'set', 'fset'):
         for x in r[1]:
             reference_words(x, out, dropped)
@@ -182,7 +204,7 @@ def reference_words(r, out, dropped):
         for _, a in r[3]:
             reference_words(a, out, dropped)
     if tc:
-        if t in SUPPORTS_TRAILING:
+        if base in SUPPORTS_TRAILING:
             out.append(tc.split())
         else:
             dropped.append(tc)
@@ -231,6 +253,8 @@ def has_set(r):
     t = r[0]
     if t in ('cmt', 'tcmt'):
         return has_set(r[2])
+    if t == 'sub':
+        return has_set(r[3])
     if t in ('set', 'fset'):
         return len(r[1]) > 1 or any(has_set(x) for x in r[1])
     if t in ('list', 'tuple'):
@@ -310,6 +334,8 @@ def _commented_str_key(r):
     t = r[0]
     if t in ('cmt', 'tcmt'):
         return _commented_str_key(r[2])
+    if t == 'sub':
+        return _commented_str_key(r[3])
     if t in ('list', 'tuple', 'set', 'fset'):
         return any(_commented_str_key(x) for x in r[1])
     if t == 'dict':
@@ -331,6 +357,9 @@ def _commented_str_key(r):
 
 def _texts(r):
     t = r[0]
+    if t == 'sub':
+        yield from _texts(r[3])
+        return
     if t in ('cmt', 'tcmt'):
         yield r[1]
         yield from _texts(r[2])
@@ -350,6 +379,8 @@ def _texts(r):
 
 def _nontrivial(r, top):
     t = r[0]
+    if t == 'sub':
+        return _nontrivial(r[3], top)
     if t in ('cmt', 'tcmt'):
         if not top and (len(r[1].split()) >= 2 or '\n' in r[1]):
             return True
